@@ -212,8 +212,19 @@ func c18Store(c *Ctx) {
 		info := fs.Pkg.TypesInfo
 		// the write and the reads
 		var write *ast.CallExpr
-		var reads []*ast.CallExpr
+		var writes, reads []*ast.CallExpr
+		readErr := map[types.Object]bool{} // the error results of the reads
 		ast.Inspect(fs.Body(), func(n ast.Node) bool {
+			if as, isAs := n.(*ast.AssignStmt); isAs && len(as.Rhs) == 1 && len(as.Lhs) >= 2 {
+				if call, isC := unparen(as.Rhs[0]).(*ast.CallExpr); isC {
+					f := calleeOf(&CallSite{Call: call, In: fs})
+					if fnIs(f, "group", "", "readDescription") || fnIs(f, "group", "", "getDescriptionFile") {
+						if id, isId := as.Lhs[len(as.Lhs)-1].(*ast.Ident); isId && id.Name != "_" {
+							readErr[info.ObjectOf(id)] = true
+						}
+					}
+				}
+			}
 			call, ok := n.(*ast.CallExpr)
 			if !ok {
 				return true
@@ -222,8 +233,10 @@ func c18Store(c *Ctx) {
 			switch {
 			case fnIs(f, "group", "", "rewriteDescriptionFile"):
 				write = call
+				writes = append(writes, call)
 			case f != nil && f.Pkg() != nil && f.Pkg().Path() == "os" && f.Name() == "Remove":
 				write = call
+				writes = append(writes, call)
 			case fnIs(f, "group", "", "readDescription"), fnIs(f, "group", "", "getDescriptionFile"):
 				reads = append(reads, call)
 			}
@@ -259,7 +272,12 @@ func c18Store(c *Ctx) {
 				}
 			}
 		}
-		okSection := locks == 1 && unlocks == 0 && heldAt(write.Lparen)
+		okSection := locks == 1 && unlocks == 0
+		for _, w := range writes {
+			if !heldAt(w.Lparen) {
+				okSection = false
+			}
+		}
 		for _, r := range reads {
 			if !heldAt(r.Lparen) {
 				okSection = false
@@ -282,33 +300,50 @@ func c18Store(c *Ctx) {
 			c.Unknown("R18.2", spec.name+": etag parameter", fs.Pos(), "no parameter named etag")
 			continue
 		}
-		st, _ := ff.At(write)
-		okCmp, why := false, "no fact etag == <tag derived from the read> dominates the write"
-		if st != nil {
-			for _, f := range st.Facts() {
-				if f.Op != "eq" || !f.Pos || f.B == nil {
-					continue
-				}
-				for _, pr := range [][2]*Term{{f.A, f.B}, {f.B, f.A}} {
-					if pr[0].K != 'v' || pr[0].Obj != etagParam {
+		okCmpAll, why := true, "no fact etag == <tag derived from the read> dominates the write"
+		for _, w := range writes {
+			st, _ := ff.At(w)
+			okCmp := false
+			if st != nil {
+				for _, f := range st.Facts() {
+					if f.Op != "eq" || !f.Pos || f.B == nil {
 						continue
 					}
-					other := pr[1]
-					switch other.K {
-					case 'v':
-						if ok, w := tagVarFromRead(p, ff, fs, other.Obj, reads); ok {
-							okCmp = true
-						} else {
-							why = w
+					for _, pr := range [][2]*Term{{f.A, f.B}, {f.B, f.A}} {
+						if pr[0].K != 'v' || pr[0].Obj != etagParam {
+							continue
 						}
-					case 'k':
-						if strings.HasSuffix(other.Name, "makeETag") && termFromRead(p, ff, fs, other, reads) {
-							okCmp = true
+						other := pr[1]
+						switch other.K {
+						case 'v':
+							if ok, w := tagVarFromRead(p, ff, fs, other.Obj, reads); ok {
+								okCmp = true
+							} else {
+								why = w
+							}
+						case 'k':
+							if strings.HasSuffix(other.Name, "makeETag") && termFromRead(p, ff, fs, other, reads) {
+								okCmp = true
+							}
+						case 'c':
+							// a creation: the caller's tag is empty and the read found nothing
+							if other.Name == `""` {
+								for eo := range readErr {
+									if st.HasFact(mkFact(false, "eq", TVar(eo), TNil())) {
+										okCmp = true
+									}
+								}
+							}
 						}
 					}
 				}
 			}
+			if !okCmp {
+				okCmpAll = false
+				write = w
+			}
 		}
+		okCmp := okCmpAll
 		c.Check(okCmp, "R18.2", spec.name+": tag compared under the lock", write.Pos(),
 			"the write is dominated by etag == (tag of the version read in this critical section)", why+": a stale writer is not refused, or is refused against the wrong version")
 	}
@@ -742,7 +777,8 @@ func c18Preconditions(c *Ctx) {
 	var problems []string
 	seen := map[string]bool{}
 	// path-sensitive: classify every exit
-	lastStatus := func(trace []*ast.CallExpr) string {
+	statusNames := map[string]string{"412": "StatusPreconditionFailed", "304": "StatusNotModified"}
+	lastStatus := func(trace []*ast.CallExpr, st *State) string {
 		s := ""
 		for _, call := range trace {
 			f := calleeOf(&CallSite{Call: call, In: cp})
@@ -752,6 +788,16 @@ func c18Preconditions(c *Ctx) {
 			if f.Name() == "WriteHeader" && len(call.Args) == 1 {
 				if sel, ok := unparen(call.Args[0]).(*ast.SelectorExpr); ok {
 					s = sel.Sel.Name
+				} else if tv := info.Types[call.Args[0]]; tv.Value != nil {
+					s = statusNames[tv.Value.String()]
+				} else if t := ff.term(call.Args[0]); t != nil && st != nil {
+					// a status computed earlier on this path: the constant the path's own facts give it
+					s = "?"
+					for k, nm := range statusNames {
+						if st.EqualUnder(t, TConst(k)) {
+							s = nm
+						}
+					}
 				}
 			}
 			if fnIs(f, "webserver", "", "writeNotModified") {
@@ -771,7 +817,7 @@ func c18Preconditions(c *Ctx) {
 			return
 		}
 		done := tv.Value.String() == "true"
-		status := lastStatus(trace)
+		status := lastStatus(trace, st)
 		imSet := st.HasFact(mkFact(false, "eq", TStr(""), TVar(im)))
 		imOK := st.HasFact(mkFact(true, "true", match(im), nil))
 		imFail := st.HasFact(mkFact(false, "true", match(im), nil))
